@@ -109,13 +109,14 @@ def c12(tier):
                  "Go toolchain used to compile and run the instrumented programs"])
 def c11(tier):
     vlib.standard(
-        "C11", tier, "c11", ["Properties_C11.v", "Proofs_Regex.v", "Proofs_RegexRules.v", "Proofs_RegexSimplify.v", "Proofs_RegexWalk.v"],
+        "C11", tier, "c11", ["Properties_C11.v", "Proofs_Regex.v", "Proofs_RegexRules.v", "Proofs_RegexSimplify.v", "Proofs_RegexWalk.v", "Proofs_RegexWalkS.v", "Proofs_RegexLit.v", "Proofs_RegexPrint.v", "Proofs_RegexText.v"],
         timeout=3000,
         assume=[
             "Go's regexp engine is modelled (Model_Regex.m / den), not verified: the matcher is compared with regexp.FindStringSubmatchIndex on sampled (pattern, subject) pairs on every run",
             "the third-party parser quasilyte/regex/syntax is an input of the model (its tree is dumped for every pattern and for the model's pass-1 text)",
-            "whether Go's regexp parses a rewritten TEXT to the tree the simplifier meant is not a theorem; the places where it does not are found by the oracle (re-lexing classes among the known findings)",
-            "C11_simplify_sound_partial covers trees without capture groups, flag groups and \\Q..\\E on which no prefix/suffix factoring fires; other trees rely on the per-case certificate",
+            "whether the emitted TEXT of a whole pattern is parsed back to the tree the simplifier meant is a theorem only for the two modelled sub-languages (class bodies, literal runs: Model_RegexText, tied per node to the real parser) under guards; elsewhere the places where it is not are found by the oracle (re-lexing classes among the known findings)",
+            "C11_simplify_sound_partial covers trees that elaborate (capture groups, named groups, flag groups included; not \\Q..\\E) under syntactic guards; prefix/suffix factoring only in trees without flag groups and in its sound instances; other trees rely on the per-case certificate",
+            "C11_simplify_final_sound_partial speaks about the tree whose text the checker prints after its two passes; that the parser's tree of the first pass's text means what the first pass emitted is a decidable link (same_meaning) evaluated by the kernel per case, not a theorem",
             "the matcher model is claimed to be Go's semantics only where every loop body consumes at least one rune (no empty-width cycle); patterns outside are excluded from ties, certificate and in_fragment; that the tree emitted for an in_fragment tree stays inside this domain is part of C11_simplify_sound_partial",
             "subjects are valid UTF-8; case folding is modelled for ASCII, U+212A and U+017F only; \\p{..} classes and an operator directly after a flag group are outside the model",
         ],
